@@ -18,6 +18,14 @@ type verifSites struct {
 	headers    []*Header
 	medias     []*MediaType
 	schemaRefs []*SchemaRef
+	encodings  []*Encoding
+	servers    []*Server
+	// objects reached only through the headers of a media type encoding (known finding:
+	// Encoding.Validate swallows the errors of its headers)
+	inEnc         bool
+	encHeaders    map[*Header]bool
+	encSchemas    map[*Schema]bool
+	encSchemaRefs map[*SchemaRef]bool
 }
 
 func (s *verifSites) schemaRef(r *SchemaRef, seen map[*Schema]bool) {
@@ -25,12 +33,18 @@ func (s *verifSites) schemaRef(r *SchemaRef, seen map[*Schema]bool) {
 		return
 	}
 	s.schemaRefs = append(s.schemaRefs, r)
+	if s.inEnc {
+		s.encSchemaRefs[r] = true
+	}
 	v := r.Value
 	if v == nil || seen[v] {
 		return
 	}
 	seen[v] = true
 	s.schemas = append(s.schemas, v)
+	if s.inEnc {
+		s.encSchemas[v] = true
+	}
 	s.schemaRef(v.Items, seen)
 	s.schemaRef(v.Not, seen)
 	s.schemaRef(v.AdditionalProperties.Schema, seen)
@@ -55,6 +69,15 @@ func (s *verifSites) content(c Content, seen map[*Schema]bool) {
 		if mt, ok := c[k]; ok && mt != nil {
 			s.medias = append(s.medias, mt)
 			s.schemaRef(mt.Schema, seen)
+			for _, ek := range []string{"f"} {
+				if enc := mt.Encoding[ek]; enc != nil {
+					s.encodings = append(s.encodings, enc)
+					was := s.inEnc
+					s.inEnc = true
+					s.header(enc.Headers["X-E"], seen)
+					s.inEnc = was
+				}
+			}
 		}
 	}
 }
@@ -64,7 +87,11 @@ func (s *verifSites) header(h *HeaderRef, seen map[*Schema]bool) {
 		return
 	}
 	s.headers = append(s.headers, h.Value)
+	if s.inEnc {
+		s.encHeaders[h.Value] = true
+	}
 	s.schemaRef(h.Value.Schema, seen)
+	s.content(h.Value.Content, seen)
 }
 
 func (s *verifSites) param(p *ParameterRef, seen map[*Schema]bool) {
@@ -92,6 +119,9 @@ func (s *verifSites) operation(op *Operation, seen map[*Schema]bool) {
 		return
 	}
 	s.ops = append(s.ops, op)
+	if op.Servers != nil {
+		s.servers = append(s.servers, *op.Servers...)
+	}
 	for _, p := range op.Parameters {
 		s.param(p, seen)
 	}
@@ -113,7 +143,7 @@ func (s *verifSites) operation(op *Operation, seen map[*Schema]bool) {
 }
 
 func verifCollectSites(doc *T) *verifSites {
-	s := &verifSites{}
+	s := &verifSites{encHeaders: map[*Header]bool{}, encSchemas: map[*Schema]bool{}, encSchemaRefs: map[*SchemaRef]bool{}}
 	seen := map[*Schema]bool{}
 	for _, name := range []string{"S", "T"} {
 		s.schemaRef(doc.Components.Schemas[name], seen)
@@ -122,11 +152,14 @@ func verifCollectSites(doc *T) *verifSites {
 		s.param(doc.Components.Parameters[name], seen)
 	}
 	s.header(doc.Components.Headers["H"], seen)
+	s.header(doc.Components.Headers["HC"], seen)
+	s.servers = append(s.servers, doc.Servers...)
 	s.response(doc.Components.Responses["R"], seen)
 	if rb := doc.Components.RequestBodies["B"]; rb != nil && rb.Value != nil {
 		s.content(rb.Value.Content, seen)
 	}
 	pi := doc.Paths.Value("/a/{id}")
+	s.servers = append(s.servers, pi.Servers...)
 	for _, p := range pi.Parameters {
 		s.param(p, seen)
 	}
@@ -143,7 +176,7 @@ func verifLoadBase() *T {
 	return doc
 }
 
-//verif:harness id=C04 tier=quick,thorough witness=end,violated bounds="conforming document using every object kind x 30 rules x every position of the rule's subject collected by walkers (schemas at 15+ positions, parameters, responses, operations, headers, media types, reference wrappers) x validation options relevant to the rule; default-vs-minimum is symbolic (all float64); a violation is rejected at every position and each option switches off only its own rule"
+//verif:harness id=C04 tier=quick,thorough witness=end,violated bounds="conforming document using every object kind x 34 rules x every position of the rule's subject collected by walkers (schemas at 15+ positions, parameters, responses, operations, headers, media types, reference wrappers) x validation options relevant to the rule; default-vs-minimum is symbolic (all float64); a violation is rejected at every position and each option switches off only its own rule"
 func verifH_C04_rules() {
 	doc := verifLoadBase()
 	if doc == nil {
@@ -152,10 +185,20 @@ func verifH_C04_rules() {
 	ctx := context.Background()
 	verifAssert(doc.Validate(ctx) == nil, "C04: the conforming document is accepted")
 	sites := verifCollectSites(doc)
-	rule := verifChoose("rule", 30)
+	rule := verifChoose("rule", 34)
 	var opts []ValidationOption
 	disabled := false // the applied violation's rule is switched off by the options
-	pickSchema := func() *Schema { return sites.schemas[verifChoose("site", len(sites.schemas))] }
+	knownEnc := false // the violation sits in (or below) a header of a media type encoding
+	pickSchema := func() *Schema {
+		x := sites.schemas[verifChoose("site", len(sites.schemas))]
+		knownEnc = knownEnc || sites.encSchemas[x]
+		return x
+	}
+	pickHeader := func() *Header {
+		x := sites.headers[verifChoose("site", len(sites.headers))]
+		knownEnc = knownEnc || sites.encHeaders[x]
+		return x
+	}
 	// a fresh sub-schema position: a new property of any object schema, or a new component
 	// (adding an optional property does not invalidate examples written for the object)
 	newSchemaAt := func(bad *Schema) {
@@ -235,7 +278,7 @@ func verifH_C04_rules() {
 			p.Schema, p.Content = nil, nil
 		}
 	case 15: // header with a name / illegal style
-		h := sites.headers[verifChoose("site", len(sites.headers))]
+		h := pickHeader()
 		if verifChoose("how", 2) == 0 {
 			h.Name = "x"
 		} else {
@@ -274,6 +317,7 @@ func verifH_C04_rules() {
 		}
 	case 23: // unresolved reference at a schema position
 		r := sites.schemaRefs[verifChoose("site", len(sites.schemaRefs))]
+		knownEnc = knownEnc || sites.encSchemaRefs[r]
 		r.Ref, r.Value = "#/components/schemas/Nope", nil
 	case 24: // malformed component name
 		doc.Components.Schemas["a b"] = &SchemaRef{Value: &Schema{Type: &Types{"string"}}}
@@ -326,15 +370,46 @@ func verifH_C04_rules() {
 		default:
 			p.Style = "deepObject"
 		}
-	case 27: // ill-formed server
+	case 27: // ill-formed server (document, path item and operation level)
 		if verifChoose("how", 2) == 0 {
-			doc.Servers[0].URL = ""
+			sites.servers[verifChoose("site", len(sites.servers))].URL = ""
 		} else {
 			doc.Servers[0].Variables["h"].Default = ""
 		}
+	case 30: // the path parameter is declared under another name than the template's variable
+		doc.Components.Parameters["Id"].Value.Name = "other"
+	case 31: // a non-extension extra field at further positions; the examples option must not hide it
+		bad := map[string]any{"foo": 1}
+		switch verifChoose("where", 8) {
+		case 0:
+			sites.params[verifChoose("site", len(sites.params))].Extensions = bad
+		case 1:
+			pickHeader().Extensions = bad
+		case 2:
+			sites.responses[verifChoose("site", len(sites.responses))].Extensions = bad
+		case 3:
+			sites.ops[verifChoose("site", len(sites.ops))].Extensions = bad
+		case 4:
+			sites.medias[verifChoose("site", len(sites.medias))].Extensions = bad
+		case 5:
+			sites.encodings[verifChoose("site", len(sites.encodings))].Extensions = bad
+		case 6:
+			sites.servers[verifChoose("site", len(sites.servers))].Extensions = bad
+		case 7:
+			doc.Tags[0].Extensions = bad
+		}
+		if verifChoose("opt", 2) == 1 {
+			opts = append(opts, DisableExamplesValidation()) // switches off examples only
+		}
+	case 32: // encoding with a style that does not exist
+		sites.encodings[verifChoose("site", len(sites.encodings))].Style = "bogus"
+	case 33: // tag without a name
+		doc.Tags[0].Name = ""
 	}
 	err := doc.Validate(ctx, opts...)
 	verifReach("violated")
+	verifKnown("C04-encoding-header-errors-swallowed", knownEnc)
+	verifKnown("C04-path-parameter-renamed", rule == 30)
 	if disabled {
 		verifAssert(err == nil, "C04: a validation option switches off the check it names")
 	} else {
